@@ -90,7 +90,7 @@ theorem no_progress_cases {fx : Fixes} {cfg : Cfg} {sym lw : Nat} {st st' : St}
         exact this
       · left
         simp only [mu, hs, clusterCount, List.length_cons]
-        simp [hc]
+        simp [hc, h0]
   | splitk style gs rest hs hl hge hnf hns hw =>
     have hle := takeFit_snd_length_le (widthLeft cfg lw st.len gs) gs
     by_cases hpos : 0 < st.len
@@ -109,8 +109,8 @@ theorem no_progress_cases {fx : Fixes} {cfg : Cfg} {sym lw : Nat} {st st' : St}
         by_cases hfit : g.w ≤ widthLeft cfg lw st.len (g :: gs)
         · left
           have := takeFit_progress (widthLeft cfg lw st.len (g :: gs)) g gs hfit
-          simp only [mu, hs, clusterCount, List.length_cons] at this ⊢
-          simp [h0]
+          simp only [mu, hs, clusterCount, List.length_cons, h0] at this ⊢
+          simp
           split <;> omega
         · by_cases hc : st.curr = []
           · right
@@ -158,13 +158,12 @@ theorem mu_step_limited {fx : Fixes} {cfg : Cfg} {sym lw : Nat} {st st' : St}
     | nl _ _ _ _ hl _ _ => exact not_limit_lt hl hpos
     | split0 _ _ _ _ hl _ _ _ _ => exact not_limit_lt hl hpos
     | splitk _ _ _ _ hl _ _ _ _ => exact not_limit_lt hl hpos
-  rcases no_progress_cases h with hlt | ⟨_, _, _, _, _, _, _, _, _, hc, hst, hc', hl', row, hrow⟩
+  rcases no_progress_cases h with hlt | ⟨hl0, _, _, _, _, _, _, _, _, hc, hst, hc', hl', row, hrow⟩
   · have hres : st.result.length ≤ st'.result.length := by
       cases h <;> simp
     omega
   · have : mu st' = mu st := by
-      simp only [mu, hst, hc, hc', hl']
-      split <;> simp
+      simp only [mu, hst, hc, hc', hl', hl0]
     rw [this, hrow]
     simp
     omega
